@@ -96,6 +96,10 @@ CLAIMED = {
             "Structural necessary conditions of `no component is lost, duplicated or reordered between a Schema and its serialized definitions and extensions`: insertion-ordered collection types, no order-perturbing operation on component collections anywhere in the crate, the definition/extension split of all 7 to_ast implementations (same-named source field, None vs Some(ext) selector, filter/map/collect helper shape), coverage of every component collection by iter_origins, variant dispatch, root-operation pairing, the conditions under which the schema definition is omitted, and the extension emission order (first occurrence over a chain of collections, which cannot agree with every collection's order: five genuine reorderings listed as known findings).",
             "Round-trip equality and validity after the round trip are not decided; AST printing itself belongs to C08/C09. Known findings: extension order for Object/Interface/Union/Enum/InputObject types, see known_findings.json.",
             "ADT field type facts + resolved-callee inventory + symbolic (access-path) evaluation of straight-line iterator pipelines and aggregates over rustc MIR; dominating-edge facts for the implicit-definition decision", False),
+    "C23": ("other",
+            "The five FromStr implementations are interpreted symbolically (from the type-checked HIR) over templates of Name holes and literal delimiters taken from the RFC's five forms and from the Display implementations' decoded format templates: Display prints the form, parse(print(c)) == c with every field restored, SchemaCoordinate::from_str picks the right variant, near-miss templates (empty names, extra/missing delimiters, junk before `)`) are rejected, every split-off piece is consumed exactly once by a Name check / sub-parser / literal comparison, and no delimiter is a Name character. Lookup: decision tables over the six ExtendedType variants for lookup_ref and the three typed lookups, map/key/error of the straight-line lookups, argument order of every lookup -> lookup_ref call (all parameters are Names, so a swap type-checks), argument_by_name, and variant dispatch.",
+            "Given Name::try_from == the Name grammar (C10) and IndexMap::get semantics. The interpretation is symbolic over templates and is exact because delimiters are outside the Name alphabet; strings that are not UTF-8 sequences of names and delimiters are rejected by Name::try_from and are not enumerated.",
+            "symbolic interpretation of HIR (straight-line string-splitting parsers) over hole/literal templates + format-template decoding + MIR decision tables per enum variant and access-path provenance of call arguments", False),
 }
 
 NOT_APPLICABLE = {
